@@ -37,6 +37,8 @@ structure Fk where
   refcols : List String
   ondelete : Option String := none
   onupdate : Option String := none
+  deferrable : Option Bool := none
+  initially : Option String := none
   deriving DecidableEq, Repr, Inhabited
 
 structure Table where
